@@ -293,7 +293,7 @@ def pbody(name, body, py, ind):
     py.emit(ind + 1, "_n = [0]; _k = [0]")
     saved = (py.lines, py.hoisted, py.fn_ind)
     py.hoisted, py.lines, py.fn_ind = [], [], ind + 1
-    py.emit(ind + 1, "T.step(_id, _k, None)")
+    py.emit(ind + 1, "T.step(_id, _k, None, None)")
     _pstmts(body, py, ind + 1)
     py.emit(ind + 1, "return None")
     py.emit(ind + 1, "yield None  # makes this a generator function in every case")
@@ -307,16 +307,19 @@ def _pstmts(stmts, py, ind):
         op = st["op"]
         if op == "yield":
             expr = pstruct(st["s"], py, ind)
+            py.emit(ind, "_y = %s" % expr)
+            py.emit(ind, "T.pre_yield(_id, _k, _y)")
             py.emit(ind, "try:")
-            py.emit(ind + 1, "%s = yield %s" % (st["x"], expr))
+            py.emit(ind + 1, "%s = yield _y" % st["x"])
             py.emit(ind, "except Exception as _e:")
-            py.emit(ind + 1, "T.step_err(_id, _k, _e); raise")
+            py.emit(ind + 1, "T.step_err(_id, _k, _e, _y); raise")
             py.emit(ind, "else:")
-            py.emit(ind + 1, "T.step(_id, _k, %s)" % st["x"])
+            py.emit(ind + 1, "T.step(_id, _k, %s, _y)" % st["x"])
         elif op == "let":
             expr = pfexpr(st["f"], py, ind)
             py.emit(ind, "%s = %s" % (st["h"], expr))
         elif op == "sync":
+            py.emit(ind, "T.pre_sync(_id, %s)" % st["h"])
             py.emit(ind, "try:")
             py.emit(ind + 1, "%s = %s.value()" % (st["x"], st["h"]))
             py.emit(ind, "except Exception as _e:")
